@@ -192,6 +192,9 @@ def run(ctx: Ctx):
     # ---------------------------------------------------------------- R08.9 calendar answers are not remembered under a lossy key
     from .c02 import memo_rule
     memo_rule(ctx, "R08.9")
+    # ---------------------------------------------------------------- R08.11 no slot outside a leave is blocked (= C02 R02.13)
+    from .c02 import blocked_interval_rule
+    blocked_interval_rule(ctx, "R08.11")
     # ---------------------------------------------------------------- R08.10 a deadline inside a slot (known finding F49)
     # forward mode keeps the offset of a mid-slot bound (slotStartOffset: `earliest_start > slot_start`); the backward walk
     # starts at dateToIdx(deadline) - 1 whatever the position of the deadline inside its slot, so the part of the deadline's
